@@ -7,6 +7,8 @@ from mc import core  # noqa: E402
 
 
 def main(argv):
+    import signal
+    signal.signal(signal.SIGPIPE, signal.SIG_DFL)      # `./check ... | head` must not end in a traceback
     if not argv:
         print(__doc__)
         return 2
